@@ -94,17 +94,24 @@ func pruneTables(db objects.Store, survivingCommits [][]byte, allBlockKeys, allB
 				if err != nil {
 					return err
 				}
+				// a listed block or block index may be absent from the store (damaged or partly
+				// transferred repository): then there is nothing to keep, and its neighbour in
+				// key order must not be kept in its place
 				for _, blk := range ts.Blocks {
 					j := sort.Search(len(allBlockKeys), func(i int) bool {
 						return string(allBlockKeys[i]) >= string(blk)
 					})
-					keepBlock[j] = true
+					if j < len(allBlockKeys) && string(allBlockKeys[j]) == string(blk) {
+						keepBlock[j] = true
+					}
 				}
 				for _, blk := range ts.BlockIndices {
 					j := sort.Search(len(allBlockIdxKeys), func(i int) bool {
 						return string(allBlockIdxKeys[i]) >= string(blk)
 					})
-					keepBlockIndex[j] = true
+					if j < len(allBlockIdxKeys) && string(allBlockIdxKeys[j]) == string(blk) {
+						keepBlockIndex[j] = true
+					}
 				}
 			}
 		}
